@@ -147,6 +147,7 @@ def run(ctx):
     ngram = 40 if not thorough else 500
     ninp = 150 if not thorough else 400
     grammars = [lexgen.gen_lex_grammar(rng, safe_regdefs=(rng.random() < 0.4), nullable_bodies=(rng.random() < 0.4)) for _ in range(ngram)]
+    grammars += [lexgen.wide_prefix_grammar(rng) for _ in range(4 if not thorough else 40)]
     recs, stats, ws = lexcommon.prepare_lexers(ctx, grammars)
     total = disagreements = reported = 0
     distinct = set()
